@@ -47,6 +47,8 @@ def run(prog, res):
   res.floor('I4', 1)
   _equal_slopes_sum(prog, res)
   res.floor('I5', 1)
+  _decreasing_mirror(prog, res)
+  res.floor('I6', 1)
   # the initialisers read the same string hyper-parameters as the validators
   # and projections: spellings accepted through .lower() are never compared
   # raw (a 'Valley' joint unimodality must start valley-shaped)
@@ -444,6 +446,66 @@ def _pwl_init_sizes(prog, res):
             'keypoints for a kernel of %s rows (of 5 input keypoints): '
             'tf.constant(keypoints, shape=[rows, 1]) raises in build()' % (
                 bool(bad[0]), bad[1], bad[2]) if bad else '')
+
+
+def _decreasing_mirror(prog, res):
+  """I6: the decreasing initial function is the increasing one mirrored in y:
+  it starts at the upper bound and every height is negated IN PLACE
+  (heights = -heights).  Reversing, slicing or re-scaling the heights on the
+  way changes which piece gets which slope: the curve stays monotone and
+  inside the bounds (so the projection and the assertions are silent) but is
+  no longer the straight line / equal-height staircase that was asked for."""
+  lin = prog.function('pwl_calibration_lib.linear_initializer')
+  res.analysed(lin)
+  found = 0
+  for st in ast.walk(lin.node):
+    if isinstance(st, ast.If) and isinstance(st.test, ast.Compare) and \
+        dotted(st.test.left) == 'monotonicity' and const_value(
+            st.test.comparators[0], None) == -1 and isinstance(
+                st.test.ops[0], ast.Eq):
+      found += 1
+      hs = [a for a in st.body if isinstance(a, (ast.Assign, ast.AugAssign))
+            and 'heights' in (dotted(a.targets[0] if isinstance(
+                a, ast.Assign) else a.target) or '')]
+      if len(hs) != 1:
+        raise AnalysisError('linear_initializer: the decreasing branch does '
+                            'not update the heights exactly once')
+      h = hs[0]
+      tgt = dotted(h.targets[0] if isinstance(h, ast.Assign) else h.target)
+      operand = None
+      if isinstance(h, ast.AugAssign) and isinstance(h.op, ast.Mult) and \
+          const_value(h.value, None) == -1:
+        operand = h.target
+      elif isinstance(h, ast.Assign) and isinstance(
+          h.value, ast.UnaryOp) and isinstance(h.value.op, ast.USub):
+        operand = h.value.operand
+      elif isinstance(h, ast.Assign) and isinstance(h.value, ast.Call) and \
+          (prog.ext_name(lin.module, h.value.func) or '') in (
+              'tf.negative', 'tf.math.negative') and h.value.args:
+        operand = h.value.args[0]
+      elif isinstance(h, ast.Assign) and isinstance(
+          h.value, ast.BinOp) and isinstance(h.value.op, ast.Mult) and -1 in (
+              const_value(h.value.left, None), const_value(h.value.right,
+                                                           None)):
+        operand = h.value.right if const_value(
+            h.value.left, None) == -1 else h.value.left
+      if operand is None:
+        raise AnalysisError('linear_initializer: the decreasing branch `%s` '
+                            'is not a negation of the heights' %
+                            norm_text(h)[:60])
+      good = dotted(operand) == tgt
+      bias = [a for a in st.body if isinstance(a, ast.Assign) and dotted(
+          a.targets[0]) == 'bias']
+      good_b = len(bias) == 1 and dotted(bias[0].value) == 'output_max'
+      res.check(good and good_b, 'I6',
+                '%s|decreasing-mirror' % lin.qualname, lin.loc(st),
+                'decreasing: bias = output_max, heights = -heights',
+                'the decreasing branch is `%s`: it must start at output_max '
+                'and negate the heights element-wise, nothing else' % (
+                    '; '.join(norm_text(a)[:50] for a in st.body)))
+  if not found:
+    raise AnalysisError('linear_initializer: the monotonicity == -1 branch '
+                        'was not found')
 
 
 def _equal_slopes_sum(prog, res):
